@@ -99,7 +99,8 @@ class C01(RVCheck):
     rule = ("cases: every mnemonic of every configuration (RV32/RV64 x {I, IM, IA, IMA}) x seeded draws from field "
             "grids (rd/rs1/rs2 in {0,1,2,5,10,31} incl. equal registers; immediates 0, +-1, min, max, bit patterns; all "
             "shift-amount classes; CSR numbers 0,1,0x300,0x7FF,0x800,0xC00,0xFFF; aq/rl bits) x instruction addresses "
-            "(0, 0x1000, 2^31-4, 2^31, 2^32-4096, 2^63-4, 2^63, 2^64-4096) x 6 machine states (edge/random register "
+            "(0, 0x1000, 2^31-4, 2^31, 2^32-4096, 2^63-4, 2^63, 2^64-4096); every value of the U / J / B immediate grids "
+            "for every such mnemonic at a low, a high and a random address (RV32/RV64 x {I, IMA}) x 6 machine states (edge/random register "
             "values, total pseudo-random memory); judged: final rd, CSR, touched memory bytes and ip of the lifted "
             "effects = RV!Exec; no effect names x0; non-trivial = accepted word; distinct by (config, address, word)")
     assumptions = ["6 machine states per instruction word (registers from an edge grid + random; memory a total function)",
